@@ -93,6 +93,9 @@ class Prop:
                 ops.append({"k": "gc"})
             elif x < 0.06:
                 ops.append({"k": "drop", "o": r.randrange(npool + 2)})
+            elif x < 0.09:
+                ops.append({"k": "del_attr", "o": r.randrange(npool + 1),
+                            "name": r.choice(["child", "children", "children", "table", "group"])})
             elif allow_opt and x < 0.20:
                 ops.append(r.choice([{"k": "add_trait", "o": r.randrange(npool)},
                                      {"k": "add_trait", "o": r.randrange(npool),
@@ -164,6 +167,8 @@ class Prop:
         stats = {"expected_call": 0, "expected_silent": 0, "graph_changes": 0}
         allow_k1 = cfg.get("allow_k1", False)
         world.allow_k3 = cfg.get("allow_k3", False)
+        world.del_enabled = True
+        self._allow_k5 = cfg.get("allow_k5", False)
         self._allow_k4 = cfg.get("allow_k4", False)
         ops = trace["ops"]
         for i, op in enumerate(ops):
@@ -248,6 +253,15 @@ class Prop:
     def step(self, world, handlers, op, i, env, sched, records, pending_expect, stats,
              allow_k1, probe=False, pre=None):
         k = op["k"]
+        if k == "del_attr" and handlers and not self._allow_k5:
+            # K5 guard: deleting a trait that a live registration looks *through*
+            tm = world.mnodes[world.idx(op.get("o", 0))]
+            for h in handlers:
+                if G.tkey(tm, op["name"]) in G.nonterminal_keys(h.expr, world.model(h.root_uid)):
+                    env.log("k5-guard-skip", k)
+                    env.probe("k5-guard-skip")
+                    env.token("k5skip")
+                    return
         if not probe and handlers and k not in ("gc", "drop", "probe") and not allow_k1:
             # model-side guard for known finding K1: refuse ops after which one
             # observable would be matched at two depths of one branch
